@@ -169,9 +169,12 @@ def count_form(t, dst, N, sizes, power=None):
             return (prod & ((1 << 64) - 1)) if x[2] == 0 else (prod >> 64 != 0)
         raise AB("element count uses an operation this evaluation does not know: %s" % ir.show(x)[:80])
     import itertools
+    from .hilbert_curve import step_expr
+    if not step_expr(t, set(sizes)):
+        return None, "element count %s is neither ipow(round_pow2(max extent), %d) nor a step expression of the extents that evaluation at power-of-two boundaries could decide" % (ir.show(t, names)[:80], N)
     reps = []
     for k in range(0, 20):
-        for m_ in (1 << k, (1 << k) + 1, (1 << (k + 1)) - 1):
+        for m_ in sorted({max(1, (1 << k) + d_) for d_ in (-2, -1, 0, 1, 2)}):
             others = sorted({1, m_, max(1, m_ // 2), max(1, m_ - 1)})
             for pos in range(N):
                 for rest in itertools.product(others, repeat=N - 1) if N <= 3 else [tuple([others[0]] * (N - 1)), tuple([m_] * (N - 1))]:
